@@ -347,8 +347,10 @@ def stepLine (s : DState) (w : List String) : DState × String :=
             ({ s with encs := upsert s.encs e { enc := r.1, frames := slot.frames ++ frames } },
               s!"frames {frames.length}" ++ String.join (frames.map fun f => " " ++ toHex f))
       else if kind != "encode" && kind != "encodep" && kind != "encode1" then (s, "bad-op")
-      else if kind == "encode1" && ids.length != 1 then (s, if c.ok then "bad-batch" else "bad-ctx")
-      else if !c.ok then (s, "bad-ctx")
+      -- (plain encode operations: only a maximum below 25 is outside the library's precondition; a minimum above the maximum is accepted
+      --  by the library, which pads every frame to the minimum — so does the model)
+      else if kind == "encode1" && ids.length != 1 then (s, if c.max ≥ 25 then "bad-batch" else "bad-ctx")
+      else if c.max < 25 then (s, "bad-ctx")
       else
         let batch := ids.map (lookup s.pkts)
         if batch.any (fun p => p.payload.isNone) then (s, "bad-batch")
